@@ -9,6 +9,7 @@ func checkC10(p *Program, tier string) *Result {
 	ruleAuthenBinding(p, r)
 	ruleEmptyPassword(p, r)
 	ruleContinuationStates(p, r)
+	ruleAbortFirst(p, r)
 	ruleLoaderAuthenticators(p, r)
 	ruleDefaultAAA(p, r)
 	ruleBuildKeepsConfig(p, r)
